@@ -79,6 +79,7 @@ BetweenMinMax ==
             /\ \A k \in Nucs : Between(R.ntemp[k], IF o.rep = "Median" THEN TempSources(<<members[R.src]>>, k) ELSE TempSources(cs, k))
             /\ R.mode # "block" => \A c \in Comps : \A k \in Nucs : Between(R.cdens[c][k], {RInt(cs[i].n[c][k]) : i \in Idx(cs)})
             /\ R.ctemp # <<>> => \A c \in Comps : Between(R.ctemp[c], {RInt(cs[i].t[c]) : i \in Idx(cs)})
+            /\ (R.lfp <=> members[R.src].lfp)
             /\ Between(R.bu, IF o.rep = "Median" THEN {RInt(cs[i].bu) : i \in Idx(cs)} ELSE BurnSources(cs, o.rep))
 \* "equal to the common value when members agree"
 CommonValue ==
@@ -100,6 +101,9 @@ DuplicationInvariant ==
         LET R == RepOf(members, o)  R2 == RepOf(Twice(members), o)
         IN IF o.rep = "Median" /\ R.out = "ok"
            THEN R2.out = "ok" /\ MedKey(Twice(members)[R2.src]) = MedKey(members[R.src])
+           ELSE IF o.rep = "ComponentAverage1DCylinder" /\ R.out = "ok"       \* averages invariant; the copied candidate only up to ties
+           THEN /\ [Values(R2) EXCEPT !.ctemp = <<>>, !.lfp = FALSE] = [Values(R) EXCEPT !.ctemp = <<>>, !.lfp = FALSE]
+                /\ AvgTempNum(Twice(members)[R2.src]) = AvgTempNum(members[R.src])
            ELSE Values(R2) = Values(R)
 \* "or rescaling all weights": all flux values doubled; all volumes tripled
 RescalingInvariant ==
@@ -138,6 +142,18 @@ MedianIsMiddle ==
             LET key == MedKey(members[R.src])
             IN /\ 2 * Cardinality({i \in Idx(cs) : MedKey(cs[i]) < key}) <= Len(cs)
                /\ 2 * Cardinality({i \in Idx(cs) : MedKey(cs[i]) > key}) <= Len(cs)
+\* the 1-D cylinder option copies an eligible member with the median block-average temperature
+CylinderSourceIsMiddle ==
+    \A o \in Opts :
+        LET R == RepOf(members, o)  cs == CandOf(o)
+        IN (o.rep = "ComponentAverage1DCylinder" /\ R.out = "ok") =>
+            LET key == AvgTempNum(members[R.src])
+            IN /\ Elig(members[R.src], o.filter)
+               /\ 2 * Cardinality({i \in Idx(cs) : AvgTempNum(cs[i]) < key}) <= Len(cs)
+               /\ 2 * Cardinality({i \in Idx(cs) : AvgTempNum(cs[i]) > key}) <= Len(cs)
+\* the order in which a block stores its components is irrelevant
+StorageOrderIrrelevant ==
+    \A o \in Opts : Values(RepOf([i \in Idx(members) |-> [members[i] EXCEPT !.ord = <<>>]], o)) = Values(RepOf(members, o))
 \* refusals and "no candidate" are decided by the candidates alone
 OutcomeRule ==
     \A o \in Opts :
